@@ -7,7 +7,7 @@ for d in seeded/*/; do
   WT=/tmp/rs-$name
   git -C /repo worktree add -q --detach $WT HEAD || continue
   demo=$(ls $d/demo*.py | head -1)
-  mkdir -p $WT/MUTANTS/x && cp $demo $WT/MUTANTS/x/ && sed -i "s#/tmp/wt-[A-Za-z0-9]*#$WT#g; s#/tmp/cm-[A-Za-z0-9-]*#$WT#g" $WT/MUTANTS/x/$(basename $demo)
+  mkdir -p $WT/MUTANTS/x && cp $d/demo*.py $WT/MUTANTS/x/ && sed -i "s#/tmp/wt-[A-Za-z0-9]*#$WT#g; s#/tmp/cm2\?-[A-Za-z0-9-]*#$WT#g" $WT/MUTANTS/x/*.py
   ( cd $WT && PYTHONPATH="$WT:$WT/selftests/isolation" timeout 900 /venv/bin/python MUTANTS/x/$(basename $demo) > /dev/null 2>&1 ); c=$?
   if git -C $WT apply $(readlink -f $d/patch.diff) 2>/dev/null; then
     ( cd $WT && PYTHONPATH="$WT:$WT/selftests/isolation" timeout 900 /venv/bin/python MUTANTS/x/$(basename $demo) > /dev/null 2>&1 ); m=$?
